@@ -5,7 +5,7 @@ from typing import Tuple
 from vlib import chx, enc
 from vlib.chx import pinned
 from vlib.oracles import cfg as OC
-from vlib.registry import Cond, product_pins
+from vlib.registry import Cond, product_pins, cfg_pins
 
 cfg_canonical = enc.cfg_canonical
 
@@ -229,7 +229,7 @@ def _sh_p2(tier):
 
 
 def _sh_p3(tier):
-    return product_pins(h0=[0, 1], l0=[0, 1, 2], s0=[0, 1, 2, 3], h1=[0, 1])
+    return cfg_pins(product_pins(h0=[0, 1], l0=[0, 1, 2], s0=[0, 1, 2, 3], h1=[0, 1]))
 
 
 def _sh_b3(tier):
@@ -284,7 +284,7 @@ CONDS = [
          FUNCS + ["CFG._decompose_productions", "CFG._get_next_free_variable"], RULE),
     Cond("C08", c08_prequery, lambda tier: (product_pins(h0=[0], l0=[1], s0=[2], h1=[0, 1], q=[0, 1, 2, 3, 4, 5])
                                             if tier == "quick" else
-                                            product_pins(h0=[0], l0=[0, 1], s0=[0, 1, 2], h1=[0, 1], q=[0, 1, 2, 3, 4, 5])),
+                                            cfg_pins(product_pins(h0=[0], l0=[0, 1], s0=[0, 1, 2], h1=[0, 1], q=[0, 1, 2, 3, 4, 5]))),
          {"quick": "3 productions, the first S -> a: one of is_empty / get_generating_symbols / get_nullable_symbols / "
                    "get_reachable_symbols / remove_useless_symbols / is_finite is called first (symbolic choice), then "
                    "contains / in / generate_epsilon on the same object",
